@@ -70,7 +70,12 @@ func (w *world) evalImages(r *replica, depth int) {
 func (w *world) evalImage(parent *replica, im evalImage, depth int) {
 	saveStep := w.step
 	savedOverride := w.propOverride
-	w.propOverride = "C04"
+	ip := "C04"
+	if w.cfg.Prop == "C08" {
+		// in C08 runs a crash image is an interrupted (or just completed) install: old or new, never a mix
+		ip = "C08"
+	}
+	w.propOverride = ip
 	defer func() { w.propOverride = savedOverride; w.step = saveStep }()
 	w.step = im.step
 
@@ -102,12 +107,12 @@ func (w *world) evalImage(parent *replica, im evalImage, depth int) {
 	quiesce()
 	if cp != nil {
 		w.attach(im)
-		w.fail("C04", "image-open-panic", "image-open-panic:"+repoFrame(cp.stack), "%s: Open panicked: %v\n%s", where, cp.val, cp.stack)
+		w.fail(ip, "image-open-panic", "image-open-panic:"+repoFrame(cp.stack), "%s: Open panicked: %v\n%s", where, cp.val, cp.stack)
 		return
 	}
 	if err != nil {
 		w.attach(im)
-		w.fail("C04", "image-open-failed", "image-open-failed:"+im.during+":"+errClass(err), "%s: reopening fails: %v\ndurable view:\n%s", where, err, im.img.Listing())
+		w.fail(ip, "image-open-failed", "image-open-failed:"+im.during+":"+errClass(err), "%s: reopening fails: %v\ndurable view:\n%s", where, err, im.img.Listing())
 		return
 	}
 	r.open = true
@@ -122,17 +127,17 @@ func (w *world) evalImage(parent *replica, im evalImage, depth int) {
 	p := w.posOf(idx)
 	if p < 0 {
 		w.attach(im)
-		w.fail("C04", "image-index", "image-index-unknown", "%s: Open returned index %d which is no log entry", where, idx)
+		w.fail(ip, "image-index", "image-index-unknown", "%s: Open returned index %d which is no log entry", where, idx)
 		return
 	}
 	if idx < im.lower || idx > im.upper {
 		w.attach(im)
-		w.fail("C04", "image-index", "image-"+crashIdxSig(idx, im.lower, im.upper)+":"+im.during, "%s: Open reports index %d; last completed sync covered %d, last entry handed to Update %d\ndurable view:\n%s", where, idx, im.lower, im.upper, im.img.Listing())
+		w.fail(ip, "image-index", "image-"+crashIdxSig(idx, im.lower, im.upper)+":"+im.during, "%s: Open reports index %d; last completed sync covered %d, last entry handed to Update %d\ndurable view:\n%s", where, idx, im.lower, im.upper, im.img.Listing())
 		return
 	}
 	r.pos = p
 	w.dig.Add(idx)
-	if !w.checkState(r, "C04", "crash-image:"+im.during) {
+	if !w.checkState(r, ip, "crash-image:"+im.during) {
 		w.attach(im)
 		return
 	}
@@ -148,7 +153,7 @@ func (w *world) evalImage(parent *replica, im evalImage, depth int) {
 			w.attach(im)
 			return
 		}
-		if !w.checkState(r, "C04", "crash-image-replayed:"+im.during) {
+		if !w.checkState(r, ip, "crash-image-replayed:"+im.during) {
 			w.attach(im)
 			return
 		}
@@ -265,6 +270,8 @@ func (w *world) classify(sc *Sched) {
 		w.out.NonTrivial = p["limit=m-1"]+p["limit=m"]+p["limit=m+1"]+p["unary-size-cut"]+p["iter-multi-chunk"] > 0
 	case "C10":
 		w.out.NonTrivial = p["txn-empty-branch"] > 0 || p["txn-applied"] > 0
+	case "C11":
+		w.out.NonTrivial = p["multi-entry-batch"] > 0 && p["apply-notification-checked"] > 0
 	case "C12":
 		w.out.NonTrivial = adversarialKeys(sc.Cfg.Keys)
 	}
